@@ -1785,3 +1785,95 @@ func ruleRawRenamed(c *Ctx, r *Report) {
 	}
 	r.analysed(rule, fmt.Sprintf("%d reads of clause.raw", n))
 }
+
+// ---------------------------------------------------------------------------
+// R-PROC-IN-PLACE (C09; added after seed C09i): an open retract/1 (and an open call) holds the procedure RECORD it
+// found when it was called; "further matches of the call-time snapshot on backtracking" are removed from that
+// record's clause list. An assert in between therefore updates the record in place. In the functions the assert
+// built-ins reach, a value stored into VM.procedures is the record that was looked up there, or a new record that
+// is created only where the lookup found nothing. Installing a copy of an existing record leaves every open
+// retract/1 with a stale one: it goes on "removing" clauses that stay in the database.
+func ruleProcInPlace(c *Ctx, r *Report) {
+	const rule = "R-PROC-IN-PLACE"
+	desc := "an assert updates the procedure record in place; a new record is made only for a procedure that does not exist"
+	var roots []*ssa.Function
+	for _, nm := range []string{"asserta", "assertz"} {
+		if fn := c.registeredFn(nm, 1); fn != nil {
+			roots = append(roots, fn)
+		}
+	}
+	if len(roots) == 0 {
+		r.undecided(rule, "anchor:asserta/assertz", "-", desc, "not registered")
+		return
+	}
+	seen := map[*ssa.Function]bool{}
+	var fns []*ssa.Function
+	var visit func(fn *ssa.Function, depth int)
+	visit = func(fn *ssa.Function, depth int) {
+		if fn == nil || seen[fn] || depth > 3 || !c.isLibPkg(funcPkg(fn)) {
+			return
+		}
+		seen[fn] = true
+		fns = append(fns, fn)
+		for _, g := range withAnon(fn) {
+			eachInstr(g, func(in ssa.Instruction) {
+				if ci, ok := in.(ssa.CallInstruction); ok {
+					visit(ci.Common().StaticCallee(), depth+1)
+				}
+			})
+		}
+	}
+	for _, rt := range roots {
+		visit(rt, 0)
+	}
+	n := 0
+	for _, fn := range fns {
+		eachInstr(fn, func(in ssa.Instruction) {
+			mu, ok := in.(*ssa.MapUpdate)
+			if !ok {
+				return
+			}
+			if _, ok := loadsField(mu.Map, "VM", "procedures"); !ok {
+				return
+			}
+			n++
+			key := fmt.Sprintf("%s/procedures[]=#%d", fname(fn), n)
+			bad := ""
+			for _, l := range c.originSet(mu.Value) {
+				if e, ok := l.(*ssa.Extract); ok {
+					l = e.Tuple
+				}
+				switch x := l.(type) {
+				case *ssa.Lookup:
+					// the record found in the map
+				case *ssa.Alloc:
+					absent := false
+					for f := range c.factsAt(x.Block()) {
+						if e, ok := f.cond.(*ssa.Extract); ok && e.Index == 1 && !f.pol {
+							if lk, ok := e.Tuple.(*ssa.Lookup); ok {
+								if _, ok := loadsField(lk.X, "VM", "procedures"); ok {
+									absent = true
+								}
+							}
+						}
+					}
+					if !absent {
+						bad = "a record allocated at " + c.at(x) + " where the procedure is not known to be absent"
+					}
+				case *ssa.Parameter:
+				default:
+					bad = "a value of " + valName(l)
+				}
+			}
+			if bad == "" {
+				r.ok(rule, key, c.at(in), desc, "the record that was looked up, or a new one made where the lookup found nothing", true)
+			} else {
+				r.bad(rule, key, c.at(in), desc, "what is installed is "+bad+": an open retract/1 keeps the old record and removes its further matches from a list the database no longer uses (the clauses stay and can be retracted again)")
+			}
+		})
+	}
+	if n == 0 {
+		r.undecided(rule, "scan/procedures-writes", "-", desc, "the assert built-ins reach no store into VM.procedures")
+	}
+	r.analysed(rule, fmt.Sprintf("%d functions reached from asserta/assertz, %d stores into VM.procedures", len(fns), n))
+}
